@@ -141,6 +141,7 @@ theorem holderIff_upd {s : State} (h7 : ∀ i, s.holder = some i ↔ ∃ p, (s.l
 
 theorem inv_step {s s' : State} {e : Event} {o : Out} (h : Inv s) (hs : step s e = some (s', o)) : Inv s' := by
   cases e with
+  | rxOther => simp only [step] at hs; cases hs; exact h
   | envRepeat v =>
     simp only [step] at hs; cases hs
     exact inv_of_same_core h rfl rfl rfl rfl rfl (fun _ hk => hk) (fun hd => hd) h.defKey
@@ -444,6 +445,7 @@ theorem quiet_step {mac : Bytes} {s s' : State} {e : Event} {o : Out} (hq : Quie
   obtain ⟨hb, hl⟩ := hq
   cases e with
   | envRepeat v => simp only [step] at hs; cases hs; exact ⟨⟨hb, hl⟩, id, rfl⟩
+  | rxOther => simp only [step] at hs; cases hs; exact ⟨⟨hb, hl⟩, id, rfl⟩
   | close =>
     simp only [step] at hs
     split at hs
